@@ -879,9 +879,9 @@ impl<'ascent, 'grammar, W: Write>
             // this only occurs in the start state
             rust!(
                 self.out,
-                "let {}start: {} = Default::default();",
-                self.prefix,
+                "let {p}start: {} = {p}lookahead.as_ref().map(|o| o.0.clone()).unwrap_or_default();",
                 loc_type,
+                p = self.prefix,
             );
             rust!(self.out, "let {p}end = {p}start.clone();", p = self.prefix);
         }
